@@ -94,6 +94,77 @@ def attach_fmt(steps, lines):
                 d["terms"][n_] = F(v)
 
 
+def nested_format(chk, tier, seed):
+    """ToSolutionOutput on states of models with stop groups / initial stops: the unplanned list is derived from the
+    bookkeeping of nested units.  Correspondence with Model/Units.v (g_format_solution); oracle: every input stop
+    listed exactly once.  Findings N1-N7 apply by shape."""
+    rng = random.Random(seed * 1009 + 2020)
+    n = 150 if tier == "quick" else 3000
+    cases = []
+    for i in range(n):
+        m = G.gen_model(rng, "small", {"groups": True, "initial": rng.random() < 0.4})
+        ops = ["op q_format"]      # the state NewSolution built (initial stops)
+        for i2, o in enumerate(G.gen_ops(rng, m, 14, "unchecked")[:-1]):
+            ops += [o, "op q_format"]
+        cases.append({"id": str(i), "model": m, "ops": ops})
+    res, st = E.run_cases(cases, "c20n_" + tier, timeout=3000)
+    bad = [r for r in res if r["diff"]]
+    chk.ob("nested: ToSolutionOutput = Model/Units.v format on group / initial-stop histories (%d histories)" % n,
+           not bad and st[0] == 0 and st[2] == 0, str(bad[0]["diff"])[:500] if bad else (st[1] + st[3])[-300:])
+    if bad and chk.mismatch is None:
+        chk.mismatch = {"diff": bad[0]["diff"], "case": G.case_lines(bad[0]["case"]["model"], bad[0]["case"]["ops"])}
+    hits = 0
+    for r in res:
+        m = r["case"]["model"]
+        nst = len(m["stops"])
+        ops = r["case"]["ops"]
+        lines = [l for l in r["impl"] if not l.startswith("S")]
+        targets, results = {}, {}
+        fmt = {}
+        for l in lines:
+            f = l.split()
+            if len(f) < 3 or not f[0].isdigit():
+                continue
+            k = int(f[0])
+            if f[1] == "target":
+                targets[k] = int(f[2])
+            elif f[1] == "result":
+                results[k] = f[2]
+            elif f[1] == "fmt" and f[2] == "stop":
+                fmt.setdefault(k, []).append(int(f[4]))
+            elif f[1] == "fmt" and f[2] == "unplanned":
+                fmt.setdefault(k, []).extend(int(x) for x in f[3:])
+            elif f[1] == "fmt":
+                fmt.setdefault(k, [])
+        tainted = False
+        last = ("build", "done", False)
+        reported = False
+        for k in range(0, len(ops) + 1):
+            op = ops[k - 1].split()[1] if k >= 1 else "build"
+            if op != "q_format":
+                grp = targets.get(k, 0) >= 1000
+                if k >= 1:
+                    last = (op, results.get(k, "?"), grp)
+                continue
+            if k not in fmt:      # the model was rejected, or the history ended in an error: nothing was formatted
+                continue
+            listed = sorted(x for x in fmt.get(k, []) if x < nst)
+            if listed != list(range(nst)) and not reported:
+                reported = True
+                hits += 1
+                chk.violation({"kind": "history", "what": "output lists stops %s, input has 0..%d" % (listed, nst - 1), "step": k,
+                               "finding_shape": {"kind": "nested", "oracle": "C20", "op": last[0], "result": last[1], "group": last[2],
+                                                 "detail": "stops", "tainted": tainted},
+                               "case": G.case_lines(m, ops[:k])})
+            o, rs, grp = last
+            if o in ("munplanr", "vunplanr") or (o == "unplanr" and grp) or (o in ("planr", "plancr") and grp and rs != "done") \
+                    or (o == "build" and listed != list(range(nst))):
+                tainted = True
+    chk.ob("nested: every input stop listed exactly once in the output (violations matching a listed finding are KNOWN-FINDING)", not chk.violations)
+    chk.ev.cov["nested_format_histories"] = n
+    chk.ev.cov["nested_format_oracle_hits"] = hits
+
+
 def run(tier, seed, replay=None):
     chk = FW.Check(PID, tier, seed)
     if not chk.builds(model=True, harness=True):
@@ -129,6 +200,7 @@ def run(tier, seed, replay=None):
         "traces_validated_against_impl": n, "samples": [cases[0]["ops"][:6]],
         "search_description": "projection recomputed from the input on the implementation's snapshots",
     })
+    nested_format(chk, tier, seed)
     import engine_props
     engine_props.full_stage(chk, PID, tier, seed)
     chk.ev.assume("custom_data pass-through, alternates/groups in the unplanned list and timezone rendering are not modelled; truncation to whole seconds is the identity on the integer domain")
